@@ -14,7 +14,7 @@ from harness import pyast_wire as W
 
 META = {
     "id": "C02",
-    "technique": "Coq proof (soundness of a line-by-line model of _infer_expr_type w.r.t. the reference Python expression semantics, by induction over expressions; join / declaration / hoisting lemmas; refutation witnesses by vm_compute) + extracted-model correspondence with the real _infer_expr_type/_cpp_type/_merge_* and with the declaration lines of the emitted C++ + firmware-vs-CPython value oracle",
+    "technique": "Coq proof (soundness of a line-by-line model of _infer_expr_type w.r.t. the reference Python expression semantics, by induction over expressions and over nested list comprehensions with their var_types bracket; join / declaration / hoisting / signature-alias lemmas; refutation witnesses by vm_compute) + extracted-model correspondence with the real _infer_expr_type/_cpp_type/_merge_* and with the declaration lines of the emitted C++ + firmware-vs-CPython value oracle",
     "level_text": "Theorems C02_* (coq/Props/C02.v) are proved for all expressions / assignment sequences about Gallina models (coq/Lang/Infer.v, Decl.v) of the type-label layer of transpile/parser.py; _partial theorems carry an executable guard, each guard clause has a _refuted witness. The models are run against the real functions (direct calls, exact label and mutated var_types) and against the declared C types in the emitted sketch; the property itself is tested on compiled firmware (mock core) against CPython for programs inside the guard.",
     "level_note": "Trusted: Coq kernel, extraction (ExtrOcamlBasic), OCaml driver, translator plug-in harness/gen/c02_infer.py (builtin call table), harness codecs, g++ and the mock Arduino core as 'device', CPython 3.12 as 'Python', PySem.v as the reference expression semantics (validated against CPython's eval). The theorems are about the models; the correspondence bounds their distance from parser.py.",
     "design_ref": "DESIGN.md section 4 C02, Appendix B.1-B.4",
@@ -205,6 +205,104 @@ def gen_ctx(rng):
     return {k: [n for n in pool if rng.random() < 0.45] for k in CTX_KEYS}
 
 
+# --------------------------------------------------------------------------- part (a'): comprehensions, direct calls
+FALSY = {"int": [0, 0, 7], "float": [0.0, 0.0, 2.5], "bool": [False, False, True], "String": ["", "", "ab"]}
+
+
+def comp_src(c):
+    return c["elt"] if c["targets"] == [] else None
+
+
+def render_comp(targets, elt):
+    src = elt
+    for t, n in reversed(targets):
+        src = f"[{src} for {t} in range({n})]"
+    return src
+
+
+def enc_rhs(targets, elt):
+    w = [0, W.enc_src(elt)]
+    for t, n in reversed(targets):
+        w = [1, t, W.enc_src(n), w]
+    return w
+
+
+def part_a_comp(ctx, stats):
+    """[elt for t in range(n)] (nested up to 2): real _infer_expr_type (label, var_types afterwards) and real _to_c_expr
+    (var_types afterwards, with folded constants of every truthiness bound to the names) vs Lang/InferComp.v"""
+    rng = ctx.rng
+    n = 900 if ctx.tier == "thorough" else 260
+    cases = []
+    fixed = [([("a", "3")], "a * 2"), ([("a", "3")], "a * 0.5"), ([("s", "2")], "s + 1"), ([("zz", "4")], "zz + a"), ([("a", "b")], "b"),
+             ([("xs", "2")], "xs"), ([("a", "2"), ("b", "3")], "a * b"), ([("a", "2"), ("a", "3")], "a + 0.5"), ([("s", "2")], "t + s"),
+             ([("a", "2")], "s + a"), ([("c", "2")], "[c, a]"), ([("a", "3")], "f(a)"), ([("e", "1")], "e if c else 2.5"), ([("a", "0")], "a > 1")]
+    for targets, elt in fixed:
+        for _ in range(3):
+            fs, al = gen_functions(rng)
+            cases.append({"targets": targets, "elt": elt, "var_types": gen_env(rng), "functions": fs, "aliases": al, "ctx": gen_ctx(rng)})
+    for _ in range(n):
+        targets = [(rng.choice(NAMES + ["zz", "i"]), rng.choice(["3", "0", "a", "b", "len(xs)"])) for _ in range(rng.choice([1, 1, 1, 2]))]
+        elt = gen_typed_expr(rng, rng.choice([0, 1, 2, 2]), names=NAMES + [targets[-1][0]] * 4)
+        fs, al = gen_functions(rng)
+        cases.append({"targets": targets, "elt": elt, "var_types": gen_env(rng), "functions": fs, "aliases": al, "ctx": gen_ctx(rng)})
+    for c in cases:
+        if c["ctx"] is None:
+            c["aliases"] = {}
+        c["src"] = render_comp(c["targets"], c["elt"])
+        c["vars"] = {}
+        for name, lab in c["var_types"].items():
+            if lab in FALSY and rng.random() < 0.7:
+                c["vars"][name] = rng.choice(FALSY[lab])
+    impl = C.run_impl("c02_impl.py", {"cases": [["infer", c] for c in cases] + [["toc", c] for c in cases]})
+    r_inf, r_toc = impl[:len(cases)], impl[len(cases):]
+    wire = [[9, enc_ictx(c["ctx"] if c["ctx"] is not None else None), enc_functions(c["functions"]), enc_aliases(c["aliases"]),
+             enc_tenv(c["var_types"]), enc_rhs(c["targets"], c["elt"])] for c in cases]
+    model = ctx.model(wire) if ctx.exe else [None] * len(cases)
+    st = {"cases": len(cases), "labels": {}, "target_shadows_label": {}, "toc_compared": 0, "toc_untranslatable": 0,
+          "shadowed_name_bound_to_a_falsy_constant": 0, "var_types_mutated_by_contagion": 0}
+    for c, r, t, m in zip(cases, r_inf, r_toc, model):
+        for tg, _ in c["targets"]:
+            lab = c["var_types"].get(tg, "(unbound)")
+            st["target_shadows_label"][lab] = st["target_shadows_label"].get(lab, 0) + 1
+            if tg in c["vars"] and not c["vars"][tg]:
+                st["shadowed_name_bound_to_a_falsy_constant"] += 1
+        key = ("raises " + r["exc"]) if "exc" in r else r["label"]
+        st["labels"][key] = st["labels"].get(key, 0) + 1
+        if "exc" in r and r["exc"] != "ValueError":
+            ctx.fail("_infer_expr_type raised something other than ValueError on a comprehension", c, "label or ValueError", r, key="infer-exc")
+        if m is None:
+            continue
+        if m == [2]:
+            ctx.disagree("comprehension: model cannot decode the case (harness codec)", c, m, r)
+            continue
+        if "exc" in r:
+            if not (m[0] == 1 and r["exc"] == "ValueError"):
+                ctx.disagree("comprehension: implementation raises, model does not agree", c, m, r)
+            continue
+        if m[0] != 0:
+            ctx.disagree("comprehension: model raises ValueError, implementation returns", c, m, r)
+            continue
+        ml, menv = dec_label(m[1]), dec_tenv(m[2])
+        if ml != r["label"]:
+            ctx.disagree("comprehension: returned label differs", c, ml, r["label"])
+        elif menv != r["var_types"]:
+            ctx.disagree("comprehension: var_types after _infer_expr_type differ (target bracket)", c, menv, r["var_types"])
+        if r["var_types"] != c["var_types"]:
+            st["var_types_mutated_by_contagion"] += 1
+            continue                      # outside rhs_pure: _to_c_expr infers sub-nodes in another order (contagion is order dependent)
+        if "exc" in t:
+            st["toc_untranslatable"] += 1
+            continue
+        st["toc_compared"] += 1
+        if m[3]:
+            tenv = dec_tenv(m[3][0])
+            if tenv != t["var_types"]:
+                ctx.disagree("comprehension: var_types after _to_c_expr differ (target bracket; constants bound to the names: %s)" % json.dumps(c["vars"], sort_keys=True),
+                             c, tenv, t["var_types"])
+    stats["comprehension_cases"] = st
+    return len(cases)
+
+
 # --------------------------------------------------------------------------- part (a): direct calls
 def part_a(ctx, stats):
     rng = ctx.rng
@@ -272,6 +370,7 @@ def part_a(ctx, stats):
                 ctx.disagree("infer: returned label differs", c, ml, r["label"])
             elif menv != r["var_types"]:
                 ctx.disagree("infer: mutated var_types differ", c, menv, r["var_types"])
+    n_comp = part_a_comp(ctx, stats)
     stats["infer_cases"] = len(cases)
     stats["infer_root_kinds"] = kinds
     stats["infer_labels"] = labels
@@ -331,7 +430,7 @@ def part_a(ctx, stats):
             ctx.disagree("label codec vs _is_list_type/_list_element_type/_make_list_type_label", l, e, r)
     stats["helper_cases"] = {"cpp_type": len(lab_cases), "default_value": len(ctypes), "merge_return_types": len(mr),
                              "merge_return_types_raising": n_raise, "merge_element_types": len(me), "annotation": len(an)}
-    return len(cases) + len(lab_cases) * 2 + len(ctypes) + len(mr) + len(me) + len(an)
+    return len(cases) + n_comp + len(lab_cases) * 2 + len(ctypes) + len(mr) + len(me) + len(an)
 
 
 # --------------------------------------------------------------------------- statement-level programs
@@ -363,6 +462,10 @@ def render_block(stmts, lvl, out):
             out.append(f"{pad}mon.write({st[1]})\n")
         elif k == "return":
             out.append(pad + ("return\n" if st[1] is None else f"return {st[1]}\n"))
+        elif k == "assignc":
+            out.append(f"{pad}{st[1]} = [{st[4]} for {st[2]} in range({st[3]})]\n")
+        elif k == "tassign":
+            out.append(f"{pad}{', '.join(st[1])} = {', '.join(st[2])}\n")
         elif k == "if":
             for i, (c, b) in enumerate(st[1]):
                 out.append(f"{pad}{'if' if i == 0 else 'elif'} {c}:\n")
@@ -400,6 +503,8 @@ def wire_block(stmts):
         k = st[0]
         if k == "assign":
             out.append([0, st[1], W.enc_src(st[2])])
+        elif k == "assignc":
+            out.append([6, st[1], [1, st[2], W.enc_src(st[3]), [0, W.enc_src(st[4])]]])
         elif k == "aug":
             out.append([1, st[1], AUG_OPS[st[2]], W.enc_src(st[3])])
         elif k == "if":
@@ -496,6 +601,9 @@ class TypGen:
                 out.append(("for", rng.choice(["i", "j", "a"]), rng.choice(["3", "a", "2"]), self.block(depth - 1, names, in_fn)))
             elif r < 0.46:
                 out.append(("aug", rng.choice(names), rng.choice(["+", "-", "*", "+"]), self.expr(1, names, calls)))
+            elif r < 0.54:                                   # a comprehension whose target is (mostly) a name of the enclosing scope
+                t = rng.choice(names) if rng.random() < 0.75 else "e"
+                out.append(("assignc", rng.choice(["L1", "L1", "L2"]), t, rng.choice(["3", "2", "a"]), self.expr(rng.choice([0, 1, 1]), names + [t, t], calls)))
             elif in_fn and r < 0.58:
                 out.append(("return", None if rng.random() < 0.12 else self.expr(2, names, calls)))
             else:
@@ -551,6 +659,16 @@ FIXED_PROGRAMS = [
     [("def", "f", ["p"], [("return", None)]), ("stmt", ("assign", "a", "f(1)"))],
     [("def", "f", ["p"], [("return", "'x'"), ("return", "1")])],
     [("def", "f", ["p"], [("return", "p")]), ("stmt", ("assign", "a", "f(1, 2)"))],
+    # comprehension targets shadowing a float / str / undeclared name, at top level, in a def, in the main loop
+    [("stmt", ("assign", "a", "0.0")), ("stmt", ("assignc", "L1", "a", "4", "a * 2")), ("stmt", ("assign", "b", "a * 2"))],
+    [("stmt", ("assign", "s", "''")), ("stmt", ("assignc", "L1", "s", "2", "s + 1")), ("stmt", ("assign", "b", "s")), ("stmt", ("assignc", "L1", "e", "2", "e * 0.5"))],
+    [("def", "f", ["p"], [("assign", "z", "0.0"), ("for", "i", "3", [("assign", "z", "z + 0.5")]), ("assignc", "L1", "z", "p", "z + p"), ("assign", "w", "z * 3"), ("return", "w")]),
+     ("stmt", ("assign", "a", "f(2)")), ("stmt", ("assign", "b", "f(2.5)")), ("loop", [("assign", "c", "False"), ("assignc", "L2", "c", "2", "c"), ("assign", "d", "c")])],
+    # parameters widened by the body: alias-reached variants, call sites in both orders (and the overwritten variant)
+    [("def", "f", ["p", "q"], [("assign", "p", "p + q"), ("return", "p")]), ("stmt", ("assign", "x", "0.5")), ("stmt", ("assign", "a", "f(x, x)")),
+     ("stmt", ("assign", "b", "f(1, x)")), ("stmt", ("assign", "c", "f(2, 3)")), ("stmt", ("assign", "d", "f(True, x)"))],
+    [("def", "f", ["p", "q"], [("assign", "w", "p * 2"), ("aug", "p", "+", "q"), ("return", "p + w")]), ("stmt", ("assign", "x", "0.5")),
+     ("stmt", ("assign", "a", "f(1, x)")), ("stmt", ("assign", "b", "f(x, x)")), ("stmt", ("assign", "c", "f(1, x)"))],
     # the witness programs of C02_loop_hoist_stale_table_refuted / C02_loop_hoist_fresh_table / C02_param_relabel_refuted
     [("stmt", ("assign", "mode", "2")), ("stmt", ("if", [("mode > 1", [("assign", "gain", "1.5")])], [("assign", "gain", "0.5")])),
      ("def", "f", ["p"], [("if", [("p > 1", [("assign", "out", "1")])], [("assign", "out", "2")]), ("return", "out")]),
@@ -678,6 +796,11 @@ class RunGen:
         self.mixed_ifexp = 0
         self.augs = 0
         self.used_funcs = set()
+        self.comps = 0            # list comprehensions
+        self.comp_shadow = {}     # kind of the enclosing variable the comprehension target shadows -> count
+        self.comp_shadow_falsy = 0  # ... whose parser-known constant is falsy (0, 0.0, False, "") while its run-time value is not
+        self.accumulators = 0
+        self.tuples = {}          # tuple assignments by the set of kinds they declare
 
     def newname(self, prefix="v"):
         self.fresh += 1
@@ -715,7 +838,7 @@ class RunGen:
         if d <= 0 or rng.random() < 0.35:
             if rd["float"] and rng.random() < 0.5:
                 return rng.choice(rd["float"])
-            return repr(rng.choice([0.5, 2.5, 1.0, 7.75, 0.25, 3.0, 12.5]))
+            return repr(rng.choice([0.5, 2.5, 1.0, 7.75, 0.25, 3.0, 12.5, 0.0]))
         r = rng.random()
         if r < 0.30:
             return f"({self.int_e(d - 1, rd)} * {rng.choice(['0.5', '2.5', '1.0'])})"
@@ -835,11 +958,116 @@ class RunGen:
         st["assigned"].add(x)
         return [("assign", x, src), ("write", x)]
 
+    # ---- list comprehensions: the target is typed int while the element is translated and the enclosing scope's
+    #      knowledge about a same-named variable must be back afterwards (the target does not leak in Python 3)
+    def _new(self, st, kind, nested):
+        x = self.newname()
+        self.decl[x] = kind
+        st["known"].add(x)
+        if nested:
+            st["nested_names"].add(x)
+        st["assigned"].add(x)
+        st["label_ok"].add(x)
+        return x
+
+    def derive(self, st, x, nested):
+        """a NEW variable computed from x (so that its declaration is typed from the label of x), written out"""
+        rng = self.rng
+        K = self.decl[x]
+        src = {"int": [f"({x} + 1)", f"({x} * 3)", x], "float": [f"({x} * 2)", f"({x} + 0.5)", x, f"({x} * 3)"],
+               "bool": [f"(not {x})", x], "str": [f"({x} + \"!\")", x]}[K]
+        v = self._new(st, K, nested)
+        return [("assign", v, rng.choice(src)), ("write", v)]
+
+    def comp(self, st, nested, shadow=None):
+        rng = self.rng
+        rd = self.rd(st)
+        cands = sorted(n for n in st["known"] if n in self.decl)
+        if shadow is None and cands and rng.random() < 0.65:
+            shadow = rng.choice(cands)
+        t = shadow if shadow is not None else self.newname("c")
+        rd2 = {k: [n for n in v if n != t] for k, v in rd.items()}
+        rd2["int"] = rd2["int"] + [t, t]
+        ek = rng.choice(["int", "int", "float", "float", "bool"])
+        elt = self.expr(ek, rng.choice([1, 1, 2]), rd2)
+        if t not in elt and rng.random() < 0.7:
+            elt = {"int": f"({t} + {elt})", "float": f"({t} * 0.5 + {elt})", "bool": f"({t} > 1)"}[ek]
+        n = rng.choice([1, 2, 3, 4])
+        self.fresh += 1
+        L = f"L{self.fresh}"
+        out = [("assign", L, f"[{elt} for {t} in range({n})]"), ("write", f"{L}[{rng.randrange(n)}]")]
+        self.comps += 1
+        if shadow is not None:
+            K = self.decl[shadow]
+            self.comp_shadow[K] = self.comp_shadow.get(K, 0) + 1
+            if shadow in st["assigned"] and shadow in st["label_ok"]:
+                out += self.derive(st, shadow, nested)
+        return out
+
+    def tuple_assign(self, st, nested):
+        """x, y = e1, e2 : two or three NEW names of different kinds declared by one statement, or a swap of two readable
+        variables of one numeric kind"""
+        rng = self.rng
+        rd = self.rd(st)
+        same = [k for k in ("int", "float") if len(rd[k]) >= 2]
+        if same and rng.random() < 0.35:
+            k = rng.choice(same)
+            a, b = rng.sample(rd[k], 2)
+            self.tuples["swap"] = self.tuples.get("swap", 0) + 1
+            return [("tassign", [a, b], [b, a]), ("write", a), ("write", b)]
+        kinds = [rng.choice(["int", "float", "bool", "str"]) for _ in range(rng.choice([2, 2, 3]))]
+        srcs = [self.expr(k, rng.choice([0, 1]), rd) for k in kinds]
+        names = [self._new(st, k, nested) for k in kinds]
+        key = "+".join(sorted(set(kinds)))
+        self.tuples[key] = self.tuples.get(key, 0) + 1
+        return [("tassign", names, srcs)] + [("write", n) for n in names]
+
+    ZERO = {"int": ["0", "0", "5"], "float": ["0.0", "0.0", "2.25"], "bool": ["False", "False", "True"], "str": ['""', '""', '"ab"']}
+
+    def accumulator(self, st, nested):
+        """acc = <constant, mostly a falsy one>; updated only inside a loop / branch body (so that whatever the parser
+        knows about its value is stale); then a comprehension whose target re-uses the name; then a new variable
+        derived from it"""
+        rng = self.rng
+        K = rng.choice(["float", "float", "int", "bool", "str"])
+        init = rng.choice(self.ZERO[K])
+        acc = self._new(st, K, nested)
+        upd = {"float": f"({acc} + {rng.choice(['0.5', '0.25', '1.5'])})", "int": f"({acc} + {rng.choice(['1', '2', '7'])})",
+               "bool": f"(not {acc})", "str": f"({acc} + \"x\")"}[K]
+        out = [("assign", acc, init)]
+        shape = rng.random()
+        if shape < 0.45:
+            i = self.newname("i")
+            self.decl[i] = "int"
+            out.append(("for", i, str(rng.choice([1, 3])), [("assign", acc, upd)]))
+        elif shape < 0.7:
+            k = self.newname("k")
+            self.decl[k] = "int"
+            st["assigned"].add(k); st["label_ok"].add(k)
+            out += [("assign", k, "0"), ("while", f"{k} < {rng.choice([1, 3])}", [("assign", acc, upd), ("assign", k, f"{k} + 1")])]
+        else:
+            out.append(("if", [("1 > 0", [("assign", acc, upd)])], None))
+        out.append(("write", acc))
+        self.accumulators += 1
+        if init in ("0", "0.0", "False", '""'):
+            self.comp_shadow_falsy += 1
+        out += self.comp(st, nested, shadow=acc)
+        return out
+
     def block(self, st, depth, nested, n=None):
         rng = self.rng
         out = []
         for _ in range(n if n is not None else rng.choice([2, 3, 4])):
             r = rng.random()
+            if not nested and rng.random() < 0.10:
+                out += self.accumulator(st, nested)
+                continue
+            if not nested and rng.random() < 0.10:
+                out += self.comp(st, nested)
+                continue
+            if not nested and rng.random() < 0.08:
+                out += self.tuple_assign(st, nested)
+                continue
             if depth > 0 and r < 0.2:
                 brs = []
                 for _ in range(rng.choice([1, 1, 2])):
@@ -945,6 +1173,19 @@ def compare_values(fw_events, py_events):
     return None
 
 
+def out_of_range(py_events):
+    """a run whose CPython values leave the range a 32-bit C int carries is outside the guard of the value oracle
+    (C int width is C01's no-overflow guard, un-modelled here): every assigned value is written, so a blow-up shows"""
+    for e in py_events:
+        if e.startswith("S ") and "\t" in e:
+            text, ty = e[2:].rsplit("\t", 1)
+            if ty in ("int", "float"):
+                v = _num(text)
+                if v is not None and abs(v) >= 2 ** 30:
+                    return True
+    return False
+
+
 def run_value_pairs(srcs, inputs, loops):
     tr = fw.transpile_many(srcs)
     py = fw.pyrun_many([{"src": s_, "input": i, "loops": l} for s_, i, l in zip(srcs, inputs, loops)])
@@ -962,6 +1203,8 @@ def run_value_pairs(srcs, inputs, loops):
         r = res[k]
         if y["exc"]:
             out.append({"status": "py-undefined", "exc": y["exc"]})
+        elif out_of_range(y["events"]):
+            out.append({"status": "outside-int-range"})
         elif not r["compiled"]:
             out.append({"status": "nocompile", "log": r["compile_log"][-800:], "cpp": t["cpp"]})
         elif r["rc"] != 0:
@@ -985,6 +1228,7 @@ WITNESSES = {
     "F-C02-boolop-typed-bool": {"body": "n = 0\nv = n or 5\nmon.write(v)\n", "loops": 0},
     "F-C02-stale-promotion-type": {"body": "mode = 2\nif mode > 1:\n    gain = 1.5\nelse:\n    gain = 0.5\ndef f(p):\n    if p > 1:\n        out = 1\n    else:\n        out = 2\n    return out\ndef g(p):\n    k = 0\n    while k < 2:\n        out = p * 0.5\n        k = k + 1\n    return out\na = f(3)\nb = g(3)\nmon.write(a)\nmon.write(b)\n", "loops": 0},
     "F-C02-param-declared-from-last-label": {"body": "def f(p):\n    q = p * 2\n    p = 1\n    return q\nx = 2.5\na = f(x)\nmon.write(a)\n", "loops": 0},
+    "F-C02-widened-variant-overwritten": {"body": "def blend(a, b):\n    w = a * 2\n    a = a + b\n    return a + w\nx = 0.75\ny = 0.25\np = blend(x, y)\nq = blend(1, y)\nmon.write(p)\nmon.write(q)\n", "loops": 0},
 }
 
 
@@ -1024,6 +1268,11 @@ def part_c(ctx, stats):
                                "helper_calls": sum(g.calls for g in gens),
                                "augmented_assignments": sum(g.augs for g in gens),
                                "bool_int_conditional_expressions": sum(g.mixed_ifexp for g in gens),
+                               "list_comprehensions": sum(g.comps for g in gens),
+                               "tuple_assignments_by_declared_kinds": {k: sum(g.tuples.get(k, 0) for g in gens) for k in sorted({k for g in gens for k in g.tuples})},
+                               "comprehension_target_shadows_a_variable_of_kind": {k: sum(g.comp_shadow.get(k, 0) for g in gens) for k in ("int", "float", "bool", "str")},
+                               "accumulators_updated_only_in_child_scopes": sum(g.accumulators for g in gens),
+                               "shadowed_accumulators_with_a_falsy_known_constant": sum(g.comp_shadow_falsy for g in gens),
                                "programs_with_main_loop": sum(1 for l in loops if l)}
     stats["value_distinct_nontrivial"] = len(nontrivial)
     # known findings: replay every listed witness on the real code
@@ -1115,7 +1364,18 @@ def run(ctx: C.Ctx):
                  "order with boundary values (negative, 0, 1, non-integral), results stored in fresh and in wider existing variables, calls at column "
                  "0 / inside a branch / in the main loop, a top-level if/else hoist and a top-level loop hoist before or after the defs; 3 fixed "
                  "class representatives run at every seed; an abstract kind interpreter (Checker) keeps every parsed variant inside the guard; "
-                 "same oracle as (c), the shortest failing script is reported first."),
+                 "same oracle as (c), the shortest failing script is reported first.  "
+                 "(a') list comprehensions [elt for t in range(n)] (nested up to 2, target = a name of every label / an unbound name, generated "
+                 "elements, names bound to folded constants of every truthiness): real _infer_expr_type (label, var_types afterwards) and real "
+                 "_to_c_expr (var_types afterwards) vs Lang/InferComp.v.  (b) also draws comprehension assignments whose target re-uses a name of the "
+                 "enclosing scope (top level, defs, main loop) and parameter-widening defs called under several signatures in both orders.  "
+                 "(c) also draws float 0.0 literals, comprehensions whose target shadows a variable of every kind followed by a NEW variable derived "
+                 "from the shadowed one, and accumulators initialised with a (mostly falsy) constant, updated only inside a for/while/if body, then "
+                 "shadowed by a comprehension target, then read; tuple assignments declaring 2-3 new names of different kinds and swaps of two "
+                 "variables of one numeric kind (top level / main loop).  (d) also draws parameters widened at body level depending on another parameter / "
+                 "local / literal (`p = p + q`, `p += q`, `p = p * 0.5`): requested signatures reach their variant through the signature alias, call "
+                 "sites shuffled so that the final signature is met before and after the widened one (both counted); comprehensions inside helper "
+                 "bodies shadowing parameters / local accumulators; 5 fixed class representatives."),
         "guard": ("expressions: Lang/InferGuard.v guard (no string contagion onto a numeric name, numeric operands, `/` and `**` only with a float "
                   "operand, no unary minus on a bool label, and/or only on bool labels, conditional expression with equal or numeric labels, abs/min/max "
                   "on int/bool labels, uniform or numeric list elements, subscripts of list labels, no tuples). programs (theorem): flat_guard = every "
@@ -1123,18 +1383,31 @@ def run(ctx: C.Ctx):
                   "construction of the generator): every label assigned to a name is <= the label of its declaring (first in text order) assignment in "
                   "bool < int < float, String alone; a name whose current label is below its declared one is not read by a right-hand side; names first "
                   "assigned inside a nested block keep one label; helper bodies read only parameters and locals; call arguments are variables or "
-                  "int/bool literals; no `//`, `%`, `**`, int `/` int, str() of a bool (C01's operator/text-form findings). (d) adds: a parameter is "
+                  "int/bool literals; no `//`, `%`, `**`, int `/` int, str() of a bool (C01's operator/text-form findings); a run in which CPython "
+                  "computes a number of magnitude >= 2^30 is outside the guard (32-bit C int; counted as outside-int-range, never blamed). (d) adds: a parameter is "
                   "only re-assigned at the kind of its call signature (F-C02-param-declared-from-last-label); names first assigned directly inside a "
                   "loop body are never names an if/else hoists anywhere in the program (F-C02-stale-promotion-type); function-local names never "
                   "coincide with globals; return expressions all str or all numeric; a helper that calls another helper shares no local name with it "
-                  "(otherwise the callee variant parsed on demand does not declare its local and the sketch does not compile: C06's subject)."),
+                  "(otherwise the callee variant parsed on demand does not declare its local and the sketch does not compile: C06's subject). "
+                  "Parameters: never narrowed; widened only by a statement directly at body level (the parameter is declared from its label at the "
+                  "END of the body); all requested signatures of a helper that end on the same final signature type every local and the result "
+                  "alike (F-C02-widened-variant-overwritten); every call selects, by C++ overload resolution among the variants that can be "
+                  "emitted, the variant the transpiler means (an ambiguous overload does not compile: C06's subject); a Name passed to a helper "
+                  "has a label equal to its declared type.  Comprehensions: one generator over range(n), no filter, element int/float/bool, "
+                  "the list is only read by a subscript in mon.write; theorem guard rhs_guard = guard on the element under var_types[target] = int."),
         "unmodelled": [
+            "list comprehensions nested inside another operator (len([...]), [...][0], f([...])) stay EOther in Lang/PyAst.v and are labelled int by the "
+            "model (the real code labels them list[...]); range() with 2 or 3 arguments and filtered comprehensions; only right-hand sides that ARE a "
+            "(possibly nested) comprehension are modelled (Lang/InferComp.v) - the generators draw only those",
+            "the constant environment (vars) that _to_c_expr brackets together with var_types around a comprehension target is C03's subject; here it "
+            "only enters as an input of correspondence (a') (names bound to constants of every truthiness)",
+            "C++ overload resolution between emitted variants (harness/c02_fngen.cxx_pick keeps generated calls unambiguous); it is not part of the Gallina model",
             "calls to user functions from inside function bodies (recursion, helper calling helper: the re-entrant _ensure_function_variant with its "
             "_refreshing_functions set) - the statement model runs function bodies with the static function table; covered only by oracles (c) "
             "(template `twice`) and (d) (generated helpers calling earlier helpers)",
             "C02_function_result_covers_partial is proved for bodies made of (if-guarded) return statements; returns nested deeper, after assignments "
             "or inside loops are covered by correspondence (b) and oracle (d)",
-            "tuple assignment / swap temporaries, try/except bodies, list variables at statement level (append, element assignment), "
+            "tuple assignment / swap temporaries (not in the Gallina model; oracle (c) draws them at top level / in the main loop), try/except bodies, list variables at statement level (append, element assignment), "
             "function_param_types carried over between re-parses of the same def",
             "_to_c_expr failures (untranslatable right-hand sides abort the parse before typing) - generators only emit translatable expressions",
             "the annotated-return override (override_return) is modelled and refuted at model level, but is unreachable through parse(): RE_DEF does not "
@@ -1147,7 +1420,8 @@ def run(ctx: C.Ctx):
         "trusted_base": C.COMMON_TRUSTED + [
             "harness/gen/c02_infer.py (regenerates coq/Gen/InferTables.v: _BUILTIN_CALL_RETURN_TYPES, annotation labels; fail-closed)",
             "coq/Lang/PySem.v as the meaning of Python expressions (validated against CPython eval by harness/pysem_check.py)",
-            "harness/c02_fngen.py (generator and the abstract kind interpreter that keeps generated helper programs inside the guard)",
+            "harness/c02_fngen.py (generator, the abstract kind interpreter that keeps generated helper programs inside the guard, cxx_pick: a "
+            "three-rank model of C++ overload resolution used only to DROP generated programs)",
             "harness/pyast_wire.py + label/program codecs in harness/props/c02.py; regex extraction of declaration lines from the emitted sketch (harness/impl/c02_impl.py cpp_decls)",
             "mock Arduino core (mock/) + g++ -O0 as 'the device'; CPython 3.12 + harness/impl/pyrun_impl.py as 'what Python holds'",
             "value-level comparison of Serial lines (same_value_line): bool = 0/1, numbers to 0.0051 when the device prints decimals",
